@@ -67,6 +67,10 @@ add("C19", "effect log of every store / ambient call / print with its path condi
     "Decided: ambient decimal context (finite list of rounding modes x precisions) does not change any v2/v3 score for any assignment; no path stores into module-level or ambient state or prints. NOT explored: thread schedules and call histories - they follow from the frame condition by a written non-interference argument; hash seed only via logged hash-order-dependent iterations.",
     COMMON_NOTE, "DESIGN.md section 6 C19 and section 8")
 
+add("C14", "product execution (pair-valued leaves, two-sided control flow) of the real constructors per metric step; z3 decides the guard of every reachable (before, after) pair with after < before; v4: lookup-table lemma plus a seeded sample of product-execution forks",
+    "v2 (20 steps) and v3.0/v3.1 (41 steps each): every reachable score pair is constructed symbolically and each order-violating pair must be proved unreachable - complete over the stated (quick: reduced, thorough: full) domains. v4: complete only for the lookup-table lemma; product execution covers a seeded sample (stated).",
+    COMMON_NOTE, "DESIGN.md section 6 C14")
+
 NA = {
  "C20": "quantifies over nine CPython binaries (2.7 ... 3.13); solver-based checking would need an encoding of those interpreters' semantics, which is not within reach; running a probe under each interpreter is concrete differential testing, a different technique (DESIGN.md section 8)",
 }
